@@ -37,6 +37,9 @@ func main() {
 	case "conc":
 		w.Flush()
 		os.Exit(runConc(*seed, *nseq))
+	case "gcsoak":
+		w.Flush()
+		os.Exit(runGCSoak(*seed, *nseq))
 	case "replay":
 		in := os.Stdin
 		if *opsFile != "" {
